@@ -641,3 +641,73 @@ func isPrefix(got, want []Pkt) bool {
 }
 
 var _ = bytes.Equal
+
+// ---------------------------------------------------------------------------
+// conformant upgrade of a polling session
+
+// Upgrade performs the documented upgrade handshake of a polling session to
+// "websocket" or "webtransport": open the candidate with the session's sid,
+// probe ping, wait for the probe pong, let the pending poll be released with
+// a noop, send the upgrade packet. Returns the candidate client (exactly one
+// of the two is non-nil).
+func Upgrade(w *World, pc *PollClient, kind string) (*WSClient, *WTClient, error) {
+	sr := w.Get(pc.Sid)
+	if pc.Poll == nil {
+		pc.StartPoll()
+		Settle()
+	}
+	var wc *WSClient
+	var tc *WTClient
+	send := func(p Pkt) {
+		if wc != nil {
+			wc.SendPacket(p, nil)
+		} else {
+			tc.SendPacket(p)
+		}
+	}
+	recv := func() []Pkt {
+		if wc != nil {
+			wc.Pump()
+			return wc.Recv
+		}
+		tc.Pump()
+		return tc.Recv
+	}
+	if kind == "websocket" {
+		wc = &WSClient{W: w, O: ClientOpts{Rev: pc.O.Rev, EIO: pc.O.EIO, NoEIO: pc.O.NoEIO, B64: pc.O.B64}, Sid: pc.Sid}
+		wc.Start()
+		Settle()
+		wc.Pump()
+		if wc.HTTPStatus != 101 {
+			return nil, nil, fmt.Errorf("candidate websocket not accepted: status %d", wc.HTTPStatus)
+		}
+	} else {
+		tc = &WTClient{W: w, O: ClientOpts{Rev: 4}, Sid: pc.Sid}
+		tc.Start()
+		Settle()
+		tc.OpenBidi()
+		tc.SendHandshake()
+		Settle()
+	}
+	send(ctlD(tPing, "probe"))
+	Settle()
+	r := recv()
+	if len(r) == 0 || r[len(r)-1].Type != tPong || string(r[len(r)-1].Data) != "probe" {
+		return wc, tc, fmt.Errorf("probe not answered with a probe pong: candidate received %v", r)
+	}
+	// the server releases the pending poll with a noop within one check period
+	for i := 0; i < 3 && pc.Poll != nil; i++ {
+		time.Sleep(100 * time.Millisecond)
+		Settle()
+		pc.Pump()
+	}
+	if pc.Poll != nil {
+		return wc, tc, fmt.Errorf("pending poll was not released during the upgrade")
+	}
+	send(ctl(tUpgrade))
+	Settle()
+	if got := sr.Sock.Transport().Name(); got != kind {
+		return wc, tc, fmt.Errorf("after the upgrade packet the session's transport is %q", got)
+	}
+	return wc, tc, nil
+}
